@@ -7,6 +7,12 @@ VERIF = os.path.dirname(os.path.dirname(os.path.abspath(__file__)))
 
 # property -> (technique, level text, level note, design ref)
 CHECKS = {
+    "C01": (
+        "exception-escape analysis (raising-construct census, handler class coverage, abstract-interpreter bounds for indices/arity/divisors/struct offsets/byte ranges, regex language of conversion arguments, reviewed exemptions with re-checked conditions, propagation over the call graph) + termination audit (ranking templates for every while/for/recursion, stack-drain certificate from the span bounds)",
+        "Decides that no exception class can propagate out of scan / scan_node / flatten / iteration / string_summary / make_label / tree_to_json given the declared summaries of library functions, and that every loop and recursion cycle has a ranking argument. Partial: third-party code beyond the declared table, xortool's numeric core, RecursionError / MemoryError and regex running time are assumed, not decided.",
+        "Trusted: EXTERNAL_RAISES table, pefile raising only PEFormatError, xortool arithmetic, reviewed exemptions (each listed with its re-checked condition in the evidence).",
+        "DESIGN.md 2.3, 2.5, 3/C01",
+    ),
     "C03": (
         "abstract interpretation of every decoder over a linear-form/term domain with Fourier-Motzkin entailment (span bounds on every path), span contracts for many-path helpers, affine frame analysis of scan_node (return-the-root, re-basing in bounds), attach-site pairing census, constructor binding of the root",
         "Decides: the root is Node('', data, '', 0, len(data)); scan_node returns the root; every children-list store in the package is paired with the child's parent pointer; iteration is pre-order; for every Node a shipped decoder returns on every path 0 <= start <= end <= len(data), and for every child a decoder attaches itself 0 <= start <= end <= len(parent value); Node.original slices the parent's value. 'Every node appears exactly once' across activations follows from freshness of hits (C09-R3) and is not re-decided here.",
